@@ -56,8 +56,9 @@ impl Visit for Recorder {
     type Error = usize;
 }
 
-impl VisitExpr for Recorder {
-    // ---- leaves
+/// The leaf callbacks, shared by the full recorder and the leaves-only recorder.
+macro_rules! leaf_callbacks {
+    () => {
     fn visit_binary_operator(&mut self, o: BinaryOperator) -> Result<Self> {
         self.leaf(format!("b:{}", op_name(&o)))
     }
@@ -93,6 +94,13 @@ impl VisitExpr for Recorder {
             PoeticNumberLiteralElem::Dot => "d",
         })
     }
+
+    };
+}
+
+impl VisitExpr for Recorder {
+    // ---- leaves
+    leaf_callbacks!();
 
     // ---- pure dispatch: record, then the default body
     fn visit_expression(&mut self, e: &Expression) -> Result<Self> {
@@ -163,6 +171,57 @@ impl VisitExpr for Recorder {
 
 fn join<T: ToString>(items: &[T]) -> String {
     items.iter().map(T::to_string).collect::<Vec<_>>().join(",")
+}
+
+/// Overrides the LEAF callbacks only: every dispatching method is the library's default, so a
+/// change to a default body (which the full recorder re-implements and therefore cannot see)
+/// shows in the sequence of leaves.
+#[derive(Clone, Default)]
+struct LeafRecorder {
+    events: Rc<RefCell<Vec<String>>>,
+    fail_at: Rc<Cell<Option<usize>>>,
+}
+
+impl LeafRecorder {
+    fn event(&mut self, ev: impl Into<String>) -> std::result::Result<usize, usize> {
+        let mut events = self.events.borrow_mut();
+        let i = events.len();
+        events.push(ev.into());
+        if self.fail_at.get() == Some(i) {
+            Err(i)
+        } else {
+            Ok(i)
+        }
+    }
+    fn leaf(&mut self, ev: impl Into<String>) -> Result<Self> {
+        self.event(ev).map(|i| Ids(vec![i]))
+    }
+}
+
+impl Visit for LeafRecorder {
+    type Output = Ids;
+    type Error = usize;
+}
+
+impl VisitExpr for LeafRecorder {
+    leaf_callbacks!();
+}
+
+/// `walkleaf`: the leaves presented by a walk, in order (`ok EV,…` / `err F EV,…` / `crash`).
+pub fn walk_leaves(program: &Program, fail_at: Option<usize>) -> String {
+    let run = catch_unwind(AssertUnwindSafe(|| {
+        let rec = LeafRecorder::default();
+        rec.fail_at.set(fail_at);
+        let mut runner = ExprVisitorRunner::with_inner(rec.clone());
+        let result = runner.visit_program(program);
+        let events = rec.events.borrow().clone();
+        (result.map(|_| ()), events)
+    }));
+    match run {
+        Ok((Ok(()), events)) => format!("ok {}", join(&events)),
+        Ok((Err(f), events)) => format!("err {} {}", f, join(&events)),
+        Err(_) => "crash".to_string(),
+    }
 }
 
 /// Response of `walk`: `ok EV,… | I,…`, `err F EV,…` or `crash`.
